@@ -62,6 +62,7 @@ func init() {
 }
 
 func runC15(c *Ctx) {
+	procStateFresh(c, "S1-per-packet-state")
 	if fn := c.Fn(procT + ".process"); fn != nil {
 		e := NewE1(c, fn)
 		eg := e.CallSites(procT + ".egressInterface")
